@@ -496,6 +496,55 @@ func runC08(p *core.Prog, r *core.Report, tier string) {
 	r.Tables["entries"] = names
 	r.Tables["tolerated-rejections"] = tolerated
 
+	// ---- (j) the node's type is looked up, never remembered from a failed lookup ----
+	// The tolerated-rejection tables are keyed by the node's client type; a classification stored in the
+	// service (map, sync.Map) when the version lookup failed would turn every later tolerated rejection
+	// of that node into a failure (or, stored wrongly, a failure into a success) for the life of the process.
+	nJ := 0
+	for _, f := range p.FuncsIn("services/submitter/multinode") {
+		for _, nv := range core.CallsNamed(f, "NodeVersion") {
+			call, ok := nv.(*ssa.Call)
+			if !ok || !nv.Common().IsInvoke() {
+				continue
+			}
+			nJ++
+			errV := core.ExtractOf(call, 1)
+			bad := false
+			core.EachInstr(f, func(in ssa.Instruction) {
+				isStore := false
+				switch x := in.(type) {
+				case *ssa.MapUpdate:
+					if _, ok := core.FieldOfValue(x.Map); ok {
+						isStore = true
+					}
+				case *ssa.Call:
+					if c := x.Call.StaticCallee(); c != nil && c.Signature.Recv() != nil && strings.HasSuffix(c.Signature.Recv().Type().String(), "sync.Map") && (c.Name() == "Store" || c.Name() == "LoadOrStore" || c.Name() == "Swap") {
+						isStore = true
+					}
+				case *ssa.Store:
+					if _, _, ok := core.FieldOfAddr(x.Addr); ok {
+						if _, fresh := x.Addr.(*ssa.FieldAddr).X.(*ssa.Alloc); !fresh {
+							isStore = true
+						}
+					}
+				}
+				if !isStore || errV == nil {
+					return
+				}
+				// reachable without the lookup having succeeded?
+				w := core.Unguarded(ds, f, nil, func(x ssa.Instruction) bool { return x == in }, func(c core.Cond) int { return core.ErrNilSucc(c, errV) })
+				if w != nil {
+					bad = true
+					r.Violate("C08.j", core.FnKey(f)+"|remembers-failed-lookup", p.Pos(in.Pos()), "the node's client type is stored in the service on a path where the version lookup did not succeed: the failed classification outlives the failure, and the node's tolerated rejections are then counted as failures", p.WitnessText(w)...)
+				}
+			})
+			if !bad {
+				r.Hold("C08.j", core.FnKey(f)+"|remembers-failed-lookup", p.Pos(call.Pos()), "nothing is stored in the service unless the version lookup succeeded")
+			}
+		}
+	}
+	r.Floor("C08.j node version lookups", nJ, 1)
+
 	// ---- (i) Scatter ----
 	if sc := p.Func("util", "", "Scatter"); sc != nil {
 		checkScatter(p, r, ds, sc)
